@@ -8,6 +8,11 @@ import EnvVerif.Lemmas.Basic
 namespace EnvVerif
 open Env
 
+/- helper lemmas and sample data live in `EnvVerif.InvL` so that they cannot collide with the
+helpers of other properties; the definitions that occur in theorem statements (`Op`, `applyOp`,
+`runHistory`, `Produced`, `erase`, `recompute`) are in `EnvVerif` itself -/
+namespace InvL
+
 /-! ### unfolding forms -/
 
 section
@@ -101,7 +106,7 @@ theorem beBytes_length (n v : Nat) : (beBytes n v).length = n := by
   | zero => simp [beBytes]
   | succ n ih => simp [beBytes, ih]
 
-@[simp] theorem Digest.bytes_length (d : Digest) : d.bytes.length = 32 := beBytes_length 32 d.val
+@[simp] theorem digest_bytes_length (d : Digest) : d.bytes.length = 32 := beBytes_length 32 d.val
 
 /-! ### digests of invariant-satisfying envelopes are 32-byte values -/
 
@@ -139,16 +144,16 @@ theorem canon_assertions_slotOk {e : Env} (hc : Canon e) : ∀ a ∈ e.assertion
 
 /-! ### `mkNode`, `newNodeUnchecked`, `newNode` -/
 
-theorem Digest.ext {a b : Digest} (hv : a.val = b.val) : a = b := by
+theorem digest_ext {a b : Digest} (hv : a.val = b.val) : a = b := by
   cases a; cases b; simp_all
 
 /-- digests pairwise distinct -/
 def DistinctDigests (as : List Env) : Prop := as.Pairwise (fun a b => a.digest ≠ b.digest)
 
-theorem AscDigests.distinct {as : List Env} (hs : AscDigests as) : DistinctDigests as :=
+theorem asc_distinct {as : List Env} (hs : AscDigests as) : DistinctDigests as :=
   List.Pairwise.imp (fun {a b} hab heq => by rw [heq] at hab; exact Nat.lt_irrefl _ hab) hs
 
-theorem AscDigests.sublist {as bs : List Env} (hs : AscDigests as) (hsub : bs.Sublist as) :
+theorem asc_sublist {as bs : List Env} (hs : AscDigests as) (hsub : bs.Sublist as) :
     AscDigests bs := List.Pairwise.sublist hsub hs
 
 theorem sortByDigest_asc {as : List Env} (hd : DistinctDigests as) : AscDigests (sortByDigest as) := by
@@ -158,12 +163,12 @@ theorem sortByDigest_asc {as : List Env} (hd : DistinctDigests as) : AscDigests 
   refine (h1.and h2).imp ?_
   intro a b ⟨hle, hne⟩
   simp only [digestLe, decide_eq_true_eq] at hle
-  have : a.digest.val ≠ b.digest.val := fun hv => hne (Digest.ext hv)
+  have : a.digest.val ≠ b.digest.val := fun hv => hne (digest_ext hv)
   omega
 
 /-- an ascending list stays ascending (as a digest sequence) under any digest-preserving
 elementwise replacement -/
-theorem AscDigests.of_map_eq {as bs : List Env} (hs : AscDigests as)
+theorem asc_of_map_eq {as bs : List Env} (hs : AscDigests as)
     (hm : bs.map Env.digest = as.map Env.digest) : AscDigests bs := by
   have h1 : (as.map Env.digest).Pairwise (fun a b => a.val < b.val) := by
     rw [List.pairwise_map]; exact hs
@@ -450,7 +455,7 @@ end
 
 /-! ### folds of fallible steps -/
 
-theorem Res.bind_eq_ok {α β} {r : Res α} {f : α → Res β} {y : β} :
+theorem res_bind_eq_ok {α β} {r : Res α} {f : α → Res β} {y : β} :
     r.bind f = .ok y ↔ ∃ x, r = .ok x ∧ f x = .ok y := by
   cases r <;> simp [Res.bind]
 
@@ -467,14 +472,14 @@ theorem foldl_bind_inv {P Q : Env → Prop} (step : Env → Env → Res Env)
     simp only [List.foldl_cons] at hr
     refine ih _ r ?_ (fun b hb => hq b (by simp [hb])) hr
     intro x hx
-    obtain ⟨x0, h0, h1⟩ := Res.bind_eq_ok.1 hx
+    obtain ⟨x0, h0, h1⟩ := res_bind_eq_ok.1 hx
     exact hstep x0 a x (hi x0 h0) (hq a (by simp)) h1
 
 theorem distinct_append_singleton {as : List Env} {a : Env} (hs : AscDigests as)
     (hn : as.any (fun x => x.digest == a.digest) = false) : DistinctDigests (as ++ [a]) := by
   unfold DistinctDigests
   rw [List.pairwise_append]
-  refine ⟨hs.distinct, by simp, ?_⟩
+  refine ⟨(asc_distinct hs), by simp, ?_⟩
   intro x hx y hy
   simp only [List.mem_singleton] at hy; subst hy
   intro heq
@@ -482,6 +487,8 @@ theorem distinct_append_singleton {as : List Env} {a : Env} (hs : AscDigests as)
     List.any_eq_true.2 ⟨x, hx, by simp [heq]⟩
   rw [hn] at this; cases this
 
+
+end InvL
 
 /-! ### the operation language -/
 
@@ -597,6 +604,8 @@ def eraseList : List Env → List Env
   | a :: as => erase a :: eraseList as
 end
 
+namespace InvL
+
 /-! ### elements of an invariant-satisfying envelope satisfy the invariant -/
 
 section
@@ -678,6 +687,8 @@ theorem cborOfList_eq_map (as : List Env) : cborOfList as = as.map cborOf := by
   | nil => simp [cborOfList]
   | cons a as ih => simp [cborOfList, ih]
 
+end InvL
+
 /-- the digest recomputed from the immediate children of an element (from the digests
 they report), resp. the declared digest of an obscured element -/
 def recompute (h : Hash) : Env → Digest
@@ -690,12 +701,14 @@ def recompute (h : Hash) : Env → Digest
   | .encrypted m d => m.optDigest.getD d
   | .compressed _ d => d
 
+namespace InvL
+
 theorem wf_recompute {h : Hash} {e : Env} (hw : WF h e) : e.digest = recompute h e := by
   cases e <;> simp_all [recompute, Env.digest]
 
 /-! ### success of operations -/
 
-theorem Res.isOk_iff {α} {r : Res α} : r.isOk = true ↔ ∃ x, r = .ok x := by
+theorem res_isOk_iff {α} {r : Res α} : r.isOk = true ↔ ∃ x, r = .ok x := by
   cases r <;> simp [Res.isOk]
 
 /-! ### general success lemmas (arbitrary hash) -/
@@ -860,7 +873,7 @@ theorem sElideSet_ok :
     (∃ r, elideSet toyHash idAead idDeflate sTarget false .compress sNode = .ok r) ∧
     (∃ r, elideSet toyHash idAead idDeflate sTarget false sEncAct sNode = .ok r) ∧
     (∃ r, elideSet toyHash idAead idDeflate sTarget true .elide sNode = .ok r) := by
-  refine ⟨Res.isOk_iff.1 ?_, Res.isOk_iff.1 ?_, Res.isOk_iff.1 ?_, Res.isOk_iff.1 ?_⟩ <;> decide +kernel
+  refine ⟨res_isOk_iff.1 ?_, res_isOk_iff.1 ?_, res_isOk_iff.1 ?_, res_isOk_iff.1 ?_⟩ <;> decide +kernel
 theorem sEncryptSubject_ok : ∃ r, encryptSubject toyHash idAead [1] [2] sNode = .ok r := by
   have h1 : (encryptWithDigest idAead [1] [2] (encode sSubj) sSubj.digest).optDigest
       = some sSubj.digest := by decide +kernel
@@ -869,22 +882,22 @@ theorem sEncryptSubject_ok : ∃ r, encryptSubject toyHash idAead [1] [2] sNode 
   exact encryptSubject_node_isOk toyHash idAead h2 h1 sNode_asc (by simp) rfl
 
 theorem sEncryptWhole_ok : ∃ r, encryptWhole toyHash idAead [1] [2] sNode = .ok r :=
-  Res.isOk_iff.1 (by decide +kernel)
+  res_isOk_iff.1 (by decide +kernel)
 theorem sDecodeParts_ok :
     (∃ e, decodeEncrypted (encMsgCbor sMsg) = .ok e) ∧
     (∃ e, decodeCompressed (compMsgCbor (compressedOf idDeflate (encode sA3)) sA3.digest) = .ok e) ∧
     (∃ e, envOfCbor toyHash (cborOf sA3) = .ok e) ∧
     (∃ e, envOfTaggedCbor toyHash (taggedCborOf sA3) = .ok e) := by
-  refine ⟨Res.isOk_iff.1 ?_, Res.isOk_iff.1 ?_, Res.isOk_iff.1 ?_, Res.isOk_iff.1 ?_⟩ <;> decide +kernel
-theorem sDecode_ok : ∃ r, decode toyHash (encode sA3) = .ok r := Res.isOk_iff.1 (by decide +kernel)
+  refine ⟨res_isOk_iff.1 ?_, res_isOk_iff.1 ?_, res_isOk_iff.1 ?_, res_isOk_iff.1 ?_⟩ <;> decide +kernel
+theorem sDecode_ok : ∃ r, decode toyHash (encode sA3) = .ok r := res_isOk_iff.1 (by decide +kernel)
 theorem sUncompress_ok : ∃ r, uncompress toyHash idDeflate sComp = .ok r :=
-  Res.isOk_iff.1 (by decide +kernel)
+  res_isOk_iff.1 (by decide +kernel)
 theorem sUncompressSubject_ok : ∃ r, uncompressSubject toyHash idDeflate sNodeC = .ok r :=
-  Res.isOk_iff.1 (by decide +kernel)
+  res_isOk_iff.1 (by decide +kernel)
 theorem sDecryptSubject_ok : ∃ r, decryptSubject toyHash idAead [1] sEnc = .ok r :=
-  Res.isOk_iff.1 (by decide +kernel)
+  res_isOk_iff.1 (by decide +kernel)
 theorem sDecryptWhole_ok : ∃ r, decryptWhole toyHash idAead [1] sEncW = .ok r :=
-  Res.isOk_iff.1 (by decide +kernel)
+  res_isOk_iff.1 (by decide +kernel)
 
 theorem mergeSort_pair_swap (a b : Digest) (hab : b.val < a.val) :
     [a, b].mergeSort (fun x y => decide (x.val ≤ y.val)) = [b, a] := by
@@ -896,4 +909,5 @@ theorem mergeSort_pair_swap (a b : Digest) (hab : b.val < a.val) :
 def sUnsorted : Env :=
   .node sSubj [sA1, sA2] (toyHash.ofDigests [sSubj.digest, sA1.digest, sA2.digest])
 
+end InvL
 end EnvVerif
